@@ -1176,6 +1176,9 @@ class VerilogCase(ast.AST):
                 
         str += 'default:'
         sts = self.default
+        if len(sts) == 0:
+            # a case item needs a statement: the null statement when there is no default body
+            str += ';\n'
         if len(sts) > 1:
             str += 'begin\n'
 
